@@ -68,6 +68,26 @@ theorem primeSqrt_terminates {a p : Nat} [Fact p.Prime] (h2 : p ≠ 2) (ha : a <
     primeSqrt a p ≠ .diverges :=
   primeSqrt_ne_diverges h2 ha (fun a => legendreSymbol_eq_legendreSym a p h2)
 
+/-- the prime 2 (outside the odd-prime domain of the three theorems above, and on which the
+    unrepaired Go code searched forever for a non-residue): `PrimeSqrt(a, 2)` returns `a mod 2`
+    for every `a`, in particular it returns. -/
+theorem primeSqrt_two (a : Nat) : primeSqrt a 2 = .root (a % 2) := by
+  unfold primeSqrt
+  by_cases h0 : a = 0
+  · subst h0; rfl
+  · rw [if_neg h0, if_pos rfl]
+
+/-- … and that value is a square root of `a` modulo 2 (every number is its own square there). -/
+theorem primeSqrt_two_sq (a : Nat) :
+    ∃ r, primeSqrt a 2 = .root r ∧ r * r % 2 = a % 2 ∧ r < 2 := by
+  refine ⟨a % 2, primeSqrt_two a, ?_, Nat.mod_lt _ (by decide)⟩
+  rcases Nat.mod_two_eq_zero_or_one a with h | h <;> rw [h]
+
+/-- the same fact in closed form: the returned root `a mod 2`, squared, is congruent to `a`
+    modulo 2. -/
+theorem primeSqrt_two_root_sq (a : Nat) : (a % 2) * (a % 2) % 2 = a % 2 := by
+  rcases Nat.mod_two_eq_zero_or_one a with h | h <;> rw [h]
+
 /-- `ModSqrt` over coprime prime factors (and the factor 4), any integer `a`: roots are roots … -/
 theorem modSqrt_root {a : Int} {p q r : Nat} (hp : p.Prime) (hq : q.Prime) (hp2 : p ≠ 2) (hq2 : q ≠ 2)
     (hpq : p ≠ q) (h : modSqrt a [(p : Int), (q : Int)] = .root r) :
@@ -129,3 +149,7 @@ example : ∃ r, commonModInverse 3 7 = some r := by
   | none => exact absurd ((modInverse_none_iff 3 7 (by omega)).mp h) (by decide)
 
 end Gabi.C19
+
+#print axioms Gabi.C19.primeSqrt_two
+#print axioms Gabi.C19.primeSqrt_two_sq
+#print axioms Gabi.C19.primeSqrt_two_root_sq
